@@ -21,6 +21,12 @@ void vfx_u32_setl(void *b, uint32_t x);
 void vfx_u32_setb(void *b, uint32_t x);
 void vfx_u64_setl(void *b, uint64_t x);
 void vfx_u64_setb(void *b, uint64_t x);
+void vfx_setget16(void *b, uint16_t x, uint16_t y, uint16_t out[4]);
+void vfx_setget32(void *b, uint32_t x, uint32_t y, uint32_t out[4]);
+void vfx_setget64(void *b, uint64_t x, uint64_t y, uint64_t out[4]);
+uint16_t vfx_setget_loop16(void *b, uint16_t const *v, unsigned n);
+uint32_t vfx_setget_loop32(void *b, uint32_t const *v, unsigned n);
+uint64_t vfx_setget_loop64(void *b, uint64_t const *v, unsigned n);
 
 enum
 {
@@ -337,6 +343,45 @@ static void chk_access(vf_rng *r)
                     vf_viol(key, "x=0x%" PRIx64 " got 0x%" PRIx64, x, gb);
                 }
             }
+            {
+                /* exported accessors called back to back on one buffer inside one optimised function (h_int_ext.c) */
+                uint64_t const y = vf_u64(r) & m, rx = __builtin_bswap64(x) >> (64 - 8 * w), ry = __builtin_bswap64(y) >> (64 - 8 * w);
+                uint64_t o[4], acc = 0, want = 0;
+                uint64_t v64[5];
+                memset(blk, 0xA5, n);
+                for (int i = 0; i < 5; ++i) { v64[i] = vf_u64(r) & m; want = (want * 31u + v64[i]) & m; }
+                if (w == 2)
+                {
+                    uint16_t o16[4], v16[5];
+                    for (int i = 0; i < 5; ++i) { v16[i] = (uint16_t)v64[i]; }
+                    vfx_setget16(blk + off, (uint16_t)x, (uint16_t)y, o16);
+                    for (int i = 0; i < 4; ++i) { o[i] = o16[i]; }
+                    acc = vfx_setget_loop16(blk + off, v16, 5);
+                }
+                else if (w == 4)
+                {
+                    uint32_t o32[4], v32[5];
+                    for (int i = 0; i < 5; ++i) { v32[i] = (uint32_t)v64[i]; }
+                    vfx_setget32(blk + off, (uint32_t)x, (uint32_t)y, o32);
+                    for (int i = 0; i < 4; ++i) { o[i] = o32[i]; }
+                    acc = vfx_setget_loop32(blk + off, v32, 5);
+                }
+                else
+                {
+                    vfx_setget64(blk + off, x, y, o);
+                    acc = vfx_setget_loop64(blk + off, v64, 5);
+                }
+                ++vf.evals;
+                VF_COUNT("exported-accessors-back-to-back");
+                if (o[0] != x || o[1] != rx || o[2] != y || o[3] != ry || acc != want)
+                {
+                    char key[80];
+                    snprintf(key, sizeof(key), "u%u_get/exported/stale-value-after-store", 8 * w);
+                    vf_viol(key, "setl(x=0x%" PRIx64 "); getl=0x%" PRIx64 " getb=0x%" PRIx64 " (want 0x%" PRIx64 "); setb(y=0x%" PRIx64 "); getb=0x%" PRIx64 " getl=0x%" PRIx64 " (want 0x%" PRIx64
+                                 "); loop of 5 store/load pairs folds to 0x%" PRIx64 " (want 0x%" PRIx64 ")",
+                            x, o[0], o[1], rx, y, o[2], o[3], ry, acc, want);
+                }
+            }
             vf_distinct(vf_hash64(vf_hash64(99, w), off));
             if (vf_want_sample() && off == 3 && w == 4)
             {
@@ -488,9 +533,32 @@ static void vf_case(uint64_t c, vf_rng *r)
             uint64_t t = f0 + f1;
             chk_gcd64(f1, f0);
             chk_gcd64(f0, f1);
-            if (f1 <= UINT32_MAX) { chk_gcd32((uint32_t)f1, (uint32_t)f0); }
+            if (f1 <= UINT32_MAX) { chk_gcd32((uint32_t)f1, (uint32_t)f0); chk_gcd32((uint32_t)f0, (uint32_t)f1); }
             f0 = f1;
             f1 = t;
+        }
+        /* the longest Euclid chains (Lame): pairs built from their quotient sequence - all ones, with a two in one position -
+           by continuants, BOTH argument orders (the smaller first costs one more step).  Seeded change C19-E bounds the loop
+           at 45 steps: wrong for exactly five ordered 32-bit pairs, all of this family, none reachable by random draws. */
+        for (unsigned L = 1; L <= 92; ++L)
+        {
+            for (int pos = -1; pos < (int)L; ++pos)
+            {
+                unsigned __int128 a = 1, b = 0;
+                int ok = 1;
+                for (int k = (int)L - 1; k >= 0 && ok; --k)
+                {
+                    unsigned __int128 const q = (k == pos || (pos < 0 && k == (int)L - 1)) ? 2 : 1, t = q * a + b;
+                    b = a;
+                    a = t;
+                    if (a > (unsigned __int128)UINT64_MAX) { ok = 0; }
+                }
+                if (!ok) { continue; }
+                VF_COUNT("gcd-longest-euclid-chains");
+                chk_gcd64((uint64_t)a, (uint64_t)b);
+                chk_gcd64((uint64_t)b, (uint64_t)a);
+                if (a <= UINT32_MAX) { chk_gcd32((uint32_t)a, (uint32_t)b); chk_gcd32((uint32_t)b, (uint32_t)a); }
+            }
         }
         for (i = 0; i < 64; ++i)
         {
